@@ -4,7 +4,7 @@
    async_update_service, async_unregister_service (after the C08 repair: the withdrawn records are also
    removed from the two outgoing queues) and generate_unregister_all_services.
    A service is a value (Respond.svc); info.name is rewritten by renaming. *)
-From ZC Require Import Model.Base Model.PyRec Model.Dict Model.Re Model.Names Model.Cache Model.Respond Gen.Const Gen.DnsPure.
+From ZC Require Import Model.Base Model.PyRec Model.Dict Model.Re Model.Names Model.Cache Model.Respond Gen.Const Gen.Sites Gen.DnsPure.
 
 (* ---- str(n) for the '-N' suffix ---- *)
 Fixpoint dec_digits (fuel : nat) (n : Z) (acc : text) : text :=
@@ -76,16 +76,18 @@ Definition rename_fuel (c : cache) (k : chk) : nat := S (S (length (entries_with
 
 (* the body of `while i < _REGISTER_BROADCASTS` from the point where the coroutine (re)starts with `now` fresh,
    up to the next await / raise / return.  The cache cannot change inside a turn. *)
-Fixpoint check_loop (fuel : nat) (c : cache) (now : Z) (k : chk) (acc : list chk_out) : chk * list chk_out :=
+Definition check_loop :=
+  Eval cbv beta iota delta [sop_apply site_reg_probe_count site_reg_probe_wait] in
+  fix check_loop (fuel : nat) (c : cache) (now : Z) (k : chk) (acc : list chk_out) {struct fuel} : chk * list chk_out :=
   match fuel with
   | O => (k, acc ++ [CRaise OtherError])
   | S f =>
-      if negb (ck_i k <? C_REGISTER_BROADCASTS) then (k, acc ++ [CDone]) else
+      if negb (sop_apply site_reg_probe_count (ck_i k) C_REGISTER_BROADCASTS) then (k, acc ++ [CDone]) else
       match rename_loop (rename_fuel c k) c now k with
       | None => (k, acc ++ [CRaise OtherError])
       | Some (Raise e) => (k, acc ++ [CRaise e])
       | Some (Ok k1) =>
-          if now <? ck_next k1 then (k1, acc ++ [CWait (ck_next k1 - now)])
+          if sop_apply site_reg_probe_wait now (ck_next k1) then (k1, acc ++ [CWait (ck_next k1 - now)])
           else
             check_loop f c now
               {| ck_svc := ck_svc k1; ck_instance := ck_instance k1; ck_num := ck_num k1;
